@@ -248,6 +248,17 @@ static int sweep_declarations()
                 else if (it->second == std::make_pair(grp, kind)) { if (exc != 0 || got != addr[name]) ok = false; }
                 else if (exc != 2) ok = false;
             }
+            // C15: every declared option is listed exactly once in the option section of the usage text
+            if (ok)
+            {
+                std::stringstream us; p.usage(us); S text = us.str();
+                for (auto& r : ref)
+                {
+                    size_t cnt = 0, pos = 0; S needle = "  --" + r.first;
+                    while ((pos = text.find("\n" + needle, pos)) != S::npos) { ++cnt; pos += needle.size(); }
+                    if (cnt != 1) { ok = false; trace += "   [usage lists --" + r.first + " " + std::to_string(cnt) + " times]"; }
+                }
+            }
             ++n;
             if (!ok && ++dev <= 5) std::printf("DEVIATION declarations:%s\n", trace.c_str());
         }
